@@ -5,10 +5,13 @@ set -u
 D=$(cd "$1" && pwd); TIER="${2:-quick}"
 P=$(python3 -c "import json,sys;print(json.load(open('$D/meta.json'))['property'])")
 cd /verif
-if ! git -C /repo diff --quiet; then echo "/repo has local modifications; refusing"; exit 2; fi
-git -C /repo apply "$D/patch.diff" || { echo "patch does not apply"; exit 2; }
+# SEED_REPO=<scratch worktree of /repo HEAD> keeps /repo itself untouched (checks honour VERIF_REPO)
+R="${SEED_REPO:-/repo}"
+[ "$R" = /repo ] || export VERIF_REPO="$R"
+if ! git -C "$R" diff --quiet; then echo "$R has local modifications; refusing"; exit 2; fi
+git -C "$R" apply "$D/patch.diff" || { echo "patch does not apply"; exit 2; }
 cp "evidence/$P.json" "/tmp/.ev-$P.json" 2>/dev/null
 ./check "$P" --tier "$TIER" > "$D/result-$TIER.txt" 2>&1; RC=$?
 cp "/tmp/.ev-$P.json" "evidence/$P.json" 2>/dev/null; rm -f "/tmp/.ev-$P.json"
-git -C /repo checkout -- . ; git -C /repo clean -fdq -- . 2>/dev/null
+git -C "$R" checkout -- . ; git -C "$R" clean -fdq -- . 2>/dev/null
 if [ $RC -eq 1 ] && grep -q "^VIOLATION property=$P" "$D/result-$TIER.txt"; then echo "DETECTED $D ($TIER): $(grep '^VIOLATION' "$D/result-$TIER.txt" | head -1)"; else echo "MISSED $D ($TIER) rc=$RC"; fi
